@@ -244,6 +244,10 @@ def run(ctx) -> None:
     # "over the JWE transport": claims of exactly the decompression limit still decode (completion gate of the bounded inflater)
     from .c17 import r17_2_5
     ctx.guard_as("R09.12", r17_2_5)
+    from .c06 import r06_2
+    ctx.guard_as("R09.13", r06_2)
+    from .c04 import r04_14
+    ctx.guard_as("R09.14", r04_14)  # "a header equal to the given one": the transports add members to a header, they never remove one  # "with the matching key": each primitive asks the key for its own operation (verify needs "verify", not "sign")
     ctx.guard(r09_1)
     ctx.guard(r09_2_3)
     ctx.guard(r09_4_5)
